@@ -54,16 +54,25 @@ def records_from_tsv(tsv_path, bed_path):
             kv = kv.strip()
             if kv.startswith("gene_assignment="):
                 gt = kv.split("=", 1)[1]
+        # one record = consecutive lines with equal (read, chr, exons).  Two records of ONE read with the same exon string
+        # (two primary records with one name and the same span; audit2-A, fuzz seed 20026) follow each other: a record
+        # lists an isoform once and carries one assignment type, so a repeated isoform id, a second '.' line or another
+        # assignment type starts the next record (the BED file has one line per record: `aligned` below re-checks)
+        if key == last_key and (l["assignment_type"] != recs[-1]["atype"] or l["isoform_id"] in recs[-1]["seen"]):
+            last_key = None
         if key != last_key:
             recs.append({"read": l["read_id"], "chr": l["chr"], "atype": l["assignment_type"], "gtype": gt,
-                         "isoforms": [], "genes": [], "exons": l["exons"], "nce": None})
+                         "isoforms": [], "genes": [], "exons": l["exons"], "nce": None, "seen": set()})
             last_key = key
         r = recs[-1]
+        r["seen"].add(l["isoform_id"])
         if l["isoform_id"] != ".":
             r["isoforms"].append(l["isoform_id"])
             r["genes"].append(l["gene_id"])
         if r["gtype"] is None:
             r["gtype"] = gt
+    for r in recs:
+        del r["seen"]
     bed = P.read_bed(bed_path)
     aligned = len(bed) == len(recs) and all(b[3] == r["read"] and b[0] == r["chr"] for b, r in zip(bed, recs))
     if aligned:
